@@ -116,6 +116,28 @@ def check(env, rep, tier):
                     # C17.4 substrings
                     sl = []
                     str_slices(rv, sl)
+                    # every text piece an item hands out is tracked: an item is (text, ...) - two pieces for an attribute
+                    # (key and raw value) and for a link (target and its attribute text); a piece that is not a known
+                    # slice (e.g. looked up in a table of constants) is not shown to come from the input
+                    is_item = isinstance(rv, EnumV) and list(rv.variants) == [1] and not (
+                        isinstance(rv.variants[1], StructV) and rv.variants[1].fields and isinstance(rv.variants[1].fields[0], EnumV)
+                        and list(rv.variants[1].fields[0].variants) == [1])
+                    def chars_pieces(v):
+                        # (a character cursor over a piece of the input - Unquote keeps its value that way)
+                        if isinstance(v, OpaqueV) and v.get("iter") == "chars":
+                            b_ = v.get("base")
+                            empty_const = isinstance(b_, tuple) and b_ and b_[0] == "const" and (v.get("start") == v.get("end") or (len(b_) > 1 and b_[1] == ""))
+                            return 1 if (b_ == in_base or empty_const) else 0
+                        if isinstance(v, StructV):
+                            return sum(chars_pieces(f) for f in v.fields)
+                        if isinstance(v, EnumV):
+                            return sum(chars_pieces(p_) for p_ in v.variants.values() if p_ is not None)
+                        return 0
+                    n_pieces = len(sl) + chars_pieces(rv)
+                    if is_item:
+                        rep.ob("C17.4", "%s|pieces-tracked" % path, n_pieces >= 2,
+                               "%s yields an item with %d tracked text piece(s), expected 2: some text it hands out is not shown to be a slice of the input" % (path, n_pieces),
+                               {"file": body["span"]["f"], "line": body["span"]["l"], "fn": path})
                     for x in sl:
                         ok = x.base == in_base or (isinstance(x.base, tuple) and x.base[0] == "const" and x.len == Aff.const(0)) \
                             or (isinstance(x.base, tuple) and x.base[0] == "const" and s.entails_eq(x.len, Aff.const(0)))
